@@ -21,8 +21,10 @@ class Engine:
     def chunk(self, tier):
         return self.chunks[tier]
 
+    focus = None
+
     def scenario(self, tier, idx):
-        return {}
+        return {"focus": self.focus} if self.focus else {}
 
     def init_worker(self, tree, wdir):
         pass
